@@ -35,15 +35,28 @@ def collect():
                 rows[(f[0], f[1])] = (f[2], f[3])
     # batches in the order they were started (re-runs after a strengthening come last)
     files = []
-    for pat in ("mut2-results-*", "seed2-results-*", "seed2b-results-*", "seed2c-results-*", "rerun-results-*"):
+    for pat in ("mut2-results-*", "seed2-results-*", "seed2b-results-*", "seed2c-results-*", "rerun-results-*", "regr-results-*"):
         files += sorted(glob.glob(f"{ROOT}/target/{pat}.txt"))
     for fn in files:
         for l in open(fn):
             m = re.match(r"(CAUGHT|MISSED|INCONCLUSIVE) (\S+)\.diff (\S+) rc=\d+ ?(?:signature=(\S+))?", l)
             if m and m.group(2) != "patch":
                 rows[(m.group(2), m.group(3))] = (m.group(1), m.group(4) or "")
+    own = {k: v for k, v in rows.items() if k[0][0].islower()}
+    rows = {k: v for k, v in rows.items() if not k[0][0].islower()}
     with open(old, "w") as o:
         for (m, c), (r, s) in sorted(rows.items()):
+            o.write(f"{m}\t{c}\t{r}\t{s}\n")
+    # own mutants that were (re-)tried in slots
+    p1 = f"{ROOT}/mutants/RESULTS.tsv"
+    r1 = {}
+    for l in open(p1):
+        f = l.rstrip("\n").split("\t")
+        if len(f) == 4:
+            r1[(f[0], f[1])] = (f[2], f[3])
+    r1.update(own)
+    with open(p1, "w") as o:
+        for (m, c), (r, s) in sorted(r1.items()):
             o.write(f"{m}\t{c}\t{r}\t{s}\n")
 
 def table_seeds(d):
@@ -103,6 +116,9 @@ def main():
     o.append("\n## Changes written by independent sub-agents, round 3 (`/verif/seeded3/<id>/`)\n")
     o.append("Same protocol, with both earlier changes described and the request to pick a clause, code path, input class or API entry point neither of them touched.\n")
     o.append(table_seeds("seeded3"))
+    o.append("\n## Changes written by independent sub-agents, round 4 (`/verif/seeded4/<id>/`, ten properties)\n")
+    o.append("All three earlier changes described; asked for what they left untouched (another entry point, trait impl, input size, builder option, thread placement).\n")
+    o.append(table_seeds("seeded4"))
     rb = f"{ROOT}/seeded/ROBUSTNESS.tsv"
     if os.path.exists(rb):
         o.append("\n## Seed robustness of the concurrency-dependent catches\n")
